@@ -689,7 +689,7 @@ class DeserializationMethodVisitor(
                     conv.converter.func
                     if isinstance(conv.converter, ValueErrorCatcher)
                     else conv.converter,
-                    (fact if dynamic else fact.merge(constraints)).method,
+                    fact.merge(constraints).method,
                     isinstance(conv.converter, ValueErrorCatcher),
                 )
                 for conv, fact in zip(conversion, conv_factories)
